@@ -41,7 +41,7 @@ def run(prop, tier):
         if stats["sessions"] == 0:
             raise C.ToolError("no sessions")
         rnd = os.path.join(wd, "ss.rnd")
-        C.run_harness(["xp-session", "--random", str(t["rnd"]), "--seed", str(C.seed()), "--trace", rnd])
+        C.run_harness_watched(["xp-session", "--random", str(t["rnd"]), "--seed", str(C.seed()), "--trace", rnd], rnd)
         with open(trace, "a") as f, open(rnd) as g:
             for line in g:
                 f.write(line)
